@@ -244,12 +244,20 @@ def shutdownWrite (d : Drv) : Option SErr → Drv × Option CErr
   | none => (d, none)
   | some e => let (d1, c) := raise d (ctlStreamErr e); (d1, some c)
 
+/-- Does `ConnectionInner::shutdown` start with the check `poll_connection_error` makes?  `false` is the
+    code that exists (D-05s); `true` is the candidate repair
+    (`patches_not_applied/D-05s-shutdown-reports-connection-error.candidate.diff`) — flip it together with
+    the patch. -/
+def shutdownChecksError : Bool := false
+
 /-- `ConnectionInner::shutdown` as a whole: `keeps` = a GOAWAY whose identifier is not larger than
     the new one was sent before (`sent_closing`, set *before* the write is attempted): `Ok(())` at
     once; otherwise the write, `w` = what it answers.  The connection's error state is not looked
     at on the way (D-05s: on a failed connection the call answers `Ok(())`). -/
 def shutdownEntry (d : Drv) (keeps : Bool) (w : Option SErr) : Drv × Option CErr :=
-  if keeps then (d, none) else shutdownWrite d w
+  match shutdownChecksError, d.handled with
+  | true, some h => (d, some h)
+  | _, _ => if keeps then (d, none) else shutdownWrite d w
 
 /-- a transport given by a script: the answers to successive calls, whatever the call (used up = `Pending`) -/
 def scriptTr : Transport (List Ans) :=
